@@ -163,6 +163,13 @@ std::vector<T> check_basic(vf::Ctx& c, std::size_t k, Result const& res, Rec<T> 
         long double const var = (a - b) / (N - 1.0L);
         long double const tol = 8 * eps * (a + b) / (N - 1.0L);
         ic.close(res.variance(), var, tol + std::numeric_limits<T>::denorm_min(), "C02:variance", "variance()");
+        {
+            // error() is the square root of variance(), whatever its sign: NaN for a variance that rounding made negative
+            using std::sqrt;
+            T const root = sqrt(res.variance());
+            VF_CHECK(c, (std::isnan(root) && std::isnan(res.error())) || vf::same_bits(root, res.error()), "C02:error-is-root", "iteration " << k << ": error() = " << vf::show(res.error())
+                << " but sqrt(variance()) = " << vf::show(root) << " (variance " << vf::show(res.variance()) << ")");
+        }
         if (var > 16 * tol)
         {
             long double const s = std::sqrt(var);
